@@ -25,6 +25,7 @@ from __future__ import annotations
 
 import functools
 import operator
+import random
 import warnings
 from fractions import Fraction
 
@@ -531,8 +532,9 @@ class C10(PropertyCheck):
         "kernels are polynomials (optionally causal) in the correspondence; the theorems hold for every kernel",
         "non-linear kinds of `interp` (cubic, ...) and symbolic DiracDelta events are not evaluated",
         "natural_spline: at most one spline per Term in a formula (two splines of the same Term give different "
-        "functions with the same name and argument, for which sympy's Mul is not canonical); nonlinear formulae "
-        "(parameters inside terms, design(param=...)) are not evaluated; Factor.subs raises TypeError by construction "
+        "functions with the same name and argument, for which sympy's Mul is not canonical); formulae with "
+        "parameters inside terms (design(param=...)) are oracle-only: terms (monomial in the parameters) * (monomial "
+        "in the data terms) against their direct evaluation, for any field order of the parameter record; Factor.subs raises TypeError by construction "
         "(self.__class__(terms)) and is modelled as that refusal",
         "term identity: the model compares levels structurally (int n / str s); the code compares (_to_str(level), "
         "isinstance(level, str)) - the same, decimal printing of ints being injective (not proved); sympy's symbol "
@@ -650,6 +652,8 @@ class C10(PropertyCheck):
             if rng.random() < 0.25 and len(world["names"]) >= 2:
                 case["subs"] = rng.sample(range(len(world["names"])), 2)
             cases.append(case)
+        for _ in range(60 if q else 1200):
+            cases.append(self._gen_nonlin(rng))
         for _ in range(120 if q else 2500):
             cases.append(self._gen_recov(rng))
         for _ in range(n_contrast):
@@ -724,7 +728,8 @@ class C10(PropertyCheck):
         by_kind = {}
         for c in cases:
             by_kind.setdefault(c["kind"], []).append(c)
-        order = ["session", "design", "recov", "blockamp", "drift", "hrf", "fmristat", "blocks", "fmri", "events", "step", "interp", "conv", "contrast", "stack"]
+        order = ["session", "design", "nonlin", "recov", "blockamp", "drift", "hrf", "fmristat", "blocks", "fmri", "events", "step", "interp", "conv", "contrast", "stack"]
+        order += sorted(k for k in by_kind if k not in order)      # never drop a kind silently
         out, i = [], 0
         while any(by_kind[k] for k in order if k in by_kind):
             for k in order:
@@ -905,6 +910,98 @@ class C10(PropertyCheck):
     def run_case(self, case):
         warnings.filterwarnings("ignore")
         return getattr(self, "_" + case["kind"])(case)
+
+    # ---- formulae whose terms carry parameters: design(input, param=...) ---------------------
+    @staticmethod
+    def _gen_nonlin(rng):
+        """terms = (monomial in the parameters a, b, c) * (monomial in the data terms x, y): the column of a
+        term is that expression evaluated on the data at the given parameter values, whatever the order of the
+        fields of the parameter record (extra fields allowed)"""
+        nt, npar = rng.choice([1, 2, 2]), rng.choice([1, 2, 2, 3])
+        terms = []
+        for _ in range(rng.choice([1, 2, 3])):
+            pe = [rng.choice([0, 1, 1, 2]) for _ in range(npar)]
+            te = [rng.choice([0, 1, 1, 2]) for _ in range(nt)]
+            if not any(pe):
+                pe[rng.randrange(npar)] = 1
+            if not any(te):
+                te[rng.randrange(nt)] = 1
+            if [pe, te] not in terms:
+                terms.append([pe, te])
+        used = [j for j in range(npar) if any(t[0][j] for t in terms)]
+        order = list(used)
+        rng.shuffle(order)
+        n = rng.choice([1, 2, 3, 5])
+        return {"kind": "nonlin", "nt": nt, "npar": npar, "terms": terms,
+                "bvals": [rng.choice([1.0, 2.0, -1.0, 0.5, 3.0]) for _ in terms],
+                "pvals": [rng.choice([0.5, 2.0, -1.0, 3.0, 1.5, -0.25]) for _ in range(npar)],
+                "order": order, "extra": rng.random() < 0.3,
+                "rows": [[float(rng.randrange(-3, 5)) for _ in range(nt)] for _ in range(n)],
+                "pdtype": rng.choice(["float64", "float64", "mixed"])}
+
+    def _nonlin(self, c):
+        import sympy
+        from nipy.algorithms.statistics.formula.formulae import Formula, Term
+        nt, npar = c["nt"], c["npar"]
+        tnames, pnames = ["x", "y"][:nt], ["a", "b", "c"][:npar]
+        T = [Term(nm) for nm in tnames]
+        P = [sympy.Symbol(nm) for nm in pnames]
+        exprs = []
+        for pe, te in c["terms"]:
+            e = sympy.Integer(1)
+            for j, k in enumerate(pe):
+                e = e * P[j] ** k
+            for j, k in enumerate(te):
+                e = e * T[j] ** k
+            exprs.append(e)
+        rows = np.array(c["rows"], dtype=float).reshape(len(c["rows"]), nt)
+        data = np.zeros(rows.shape[0], dtype=[(nm, float) for nm in tnames])
+        for j, nm in enumerate(tnames):
+            data[nm] = rows[:, j]
+        # the design of such a formula is the Jacobian of the mean sum_i _b_i * term_i with respect to every
+        # parameter: the coefficients _b_i (column: term_i) and the symbols inside the terms (column: d mean / d a);
+        # the parameter record names all of them, in any field order
+        bnames = [f"_b{i}" for i in range(len(c["terms"]))]
+        fields = [pnames[j] for j in c["order"]] + bnames
+        random.Random(len(fields) * 7 + sum(c["order"])).shuffle(fields)
+        if c["extra"]:
+            fields.insert(len(fields) // 2, "unused")
+        kinds = {nm: (np.float32 if (c["pdtype"] == "mixed" and k % 2) else np.float64) for k, nm in enumerate(fields)}
+        par = np.zeros((), dtype=[(nm, kinds[nm]) for nm in fields])
+        for nm in fields:
+            par[nm] = 99.0 if nm == "unused" else (c["bvals"][bnames.index(nm)] if nm in bnames
+                                                   else c["pvals"][pnames.index(nm)])
+        snap = Snapshot(data=data, par=par)
+        fail = None
+        tags = ["nonlin", f"params={len(c['order'])}", "extra-field" if c["extra"] else "exact-fields",
+                "field-order=" + ("sorted" if fields == sorted(fields) else "other")]
+        try:
+            f = Formula(exprs)
+            D = f.design(data, param=par, return_float=True)
+            cols = _design_cols(D, rows.shape[0])
+            def term_value(pe, te, dj=None):
+                """value of the term, or of its derivative with respect to parameter `dj`"""
+                col = np.ones(rows.shape[0])
+                for j, k in enumerate(pe):
+                    if j == dj:
+                        col = col * (k * c["pvals"][j] ** (k - 1) if k >= 1 else 0.0)
+                    else:
+                        col = col * (c["pvals"][j] ** k)
+                for j, k in enumerate(te):
+                    col = col * rows[:, j] ** k
+                return col
+            want = [term_value(pe, te).tolist() for pe, te in c["terms"]]
+            for j in c["order"]:
+                want.append(sum(b * term_value(pe, te, j) for b, (pe, te) in zip(c["bvals"], c["terms"])).tolist())
+            d = _match_cols(cols, want)
+            if d is not None:
+                fail = (f"Formula.design(param=record with fields {fields}) of terms {[str(e) for e in exprs]} at "
+                        f"{dict(zip(pnames, c['pvals']))}: {d}; columns are {np.asarray(cols).T.tolist()}")
+        except Exception as e:      # noqa: BLE001
+            fail = (f"Formula.design(param=record with fields {fields}) of terms {[str(e) for e in exprs]} raised "
+                    f"{type(e).__name__}: {str(e)[:160]}")
+        return {"lines": [], "impl": [], "oracle": fail, "nontrivial": len(c["order"]) >= 2 or len(exprs) >= 2,
+                "tags": tags, "mutated": snap.changed()}
 
     def _session(self, c):
         return S.run_session(c)
@@ -1440,6 +1537,28 @@ class C10(PropertyCheck):
         if fail is None:
             fail, gtags = _grid_variants(lam, c["q"], vals, f"interp(times={ts}, values={vs}, fill={c['fill']})")
             tags += gtags
+        if fail is None:
+            # the same samples handed over as float64 arrays (work buffers of the caller): the function is defined
+            # by the samples it was given - it equals the one built from lists and does not follow later writes
+            # into the caller's arrays
+            tsa, vsa = np.array(ts, dtype=float), np.array(vs, dtype=float)
+            try:
+                lam2 = U.lambdify_t(fn(tsa, vsa, fill=c["fill"]))
+                inside = [t for t in c["q"] if ts[0] <= t <= ts[-1]] or [ts[0]]
+                qi = np.array(inside, dtype=float)
+                v1 = _bc(lam2(qi), len(qi))
+                vsa[:] = vsa[::-1] * 3.0 + 7.0
+                tsa += 0.25 * (ts[-1] - ts[0] + 1.0)
+                v2 = _bc(lam2(qi), len(qi))
+                ref = [vals[c["q"].index(t)] for t in inside] if all(t in c["q"] for t in inside) else v1
+                if not all_close(v1, ref, 1e-9, 1e-9):
+                    fail = f"interp built from float64 arrays differs from interp built from lists: {v1} vs {ref}"
+                elif not all_close(v2, v1, 0.0, 0.0):
+                    fail = (f"interp(times, values) follows later writes into the caller's arrays: values at {inside} "
+                            f"were {v1}, after the caller re-used its buffers they are {v2}")
+                tags.append("array-samples")
+            except Exception as e:      # noqa: BLE001
+                fail = f"interp on float64 arrays raised {type(e).__name__}: {e}"
         return {"lines": [line], "impl": [("vals", vals)], "oracle": fail, "nontrivial": True, "tags": tags,
                 "mutated": snap.changed()}
 
